@@ -23,6 +23,11 @@ C04_Parts == PartSet({"execp"}, {"none", "all"}, {<<>>}, {FALSE})               
              \cup PartSet({"comment", "execp"}, {"none"}, C04_DirSeqs1, {FALSE})   \* own-line directive (alone / heading statements)
              \cup {[body |-> "execp", want |-> "none", dirs |-> <<D("SKIP", TRUE), D("REQa", FALSE)>>, inline |-> TRUE],
                    [body |-> "comment", want |-> "none", dirs |-> <<D("SKIP", FALSE), D("REQa", TRUE)>>, inline |-> FALSE]}
+\* a core alphabet for longer event sequences
+C04_CoreDirs == {<<D(n, pos)>> : n \in {"SKIP", "REQa"}, pos \in BOOLEAN}
+C04_Core == PartSet({"execp"}, {"none", "all"}, {<<>>}, {FALSE})
+            \cup PartSet({"execp"}, {"none"}, C04_CoreDirs, {TRUE})
+            \cup PartSet({"comment"}, {"none"}, C04_CoreDirs \cup {<<D("REQb", TRUE)>>, <<D("REQmet", TRUE)>>}, {FALSE})
 C04_Opts == {{}, {<<"SKIP", TRUE>>}, {<<"ELLIPSIS", FALSE>>}}
 
 \* ---- C03: exceptions
